@@ -33,6 +33,8 @@ struct vpki_opts {
     const char *const *san_email; int n_san_email;
     const char *const *san_dir_cn; int n_san_dir_cn;
     bool no_ski;
+    int ski_len;                  /* > 0: a subject key identifier of that many bytes instead of the usual 20-byte hash */
+    int subject_extra_ous;        /* further OU components of 60 characters each in the subject */
 };
 
 void vpki_opts_default(struct vpki_opts *o);
